@@ -409,3 +409,25 @@ Proof.
         eapply peq_mono; [|exact IH].
         intros r1 r2 Hr. eapply loop_rel_step; [exact Hr | lia | lia | lia | lia |]. rewrite hcopy_length. lia.
 Qed.
+
+(* ---- producing a+b bytes = producing a, then b ---------------------------------------------- *)
+Definition athen (b : nat) (r : astate * outcome unit) : prog (astate * outcome unit) :=
+  match snd r with
+  | Ok _ => aproduce b (fst r)
+  | _ => Ret r
+  end.
+
+Lemma aproduce_split a : forall b s,
+  peq eq (aproduce (a + b) s) (pbind (aproduce a s) (athen b)).
+Proof.
+  induction a as [|k IH]; intros b s.
+  - cbn [Nat.add aproduce pbind athen snd fst]. apply peq_refl.
+  - cbn [Nat.add aproduce].
+    destruct (0 <? a_pend_len s); [apply IH|].
+    cbn [pbind]. eapply peq_trans_eq; [|apply peq_sym_eq, pbind_assoc].
+    eapply peq_bind; [apply peq_refl|]. intros r ? <-.
+    destruct (snd r) as [byte|dist len].
+    + apply IH.
+    + destruct (a_full s <=? dist); [cbn [pbind athen snd]; apply peq_refl|].
+      destruct (len <=? 0); [cbn [pbind]; apply peq_refl|]. apply IH.
+Qed.
